@@ -68,6 +68,7 @@ type e2e struct {
 	deadline time.Time
 	hang     bool
 	emptyAns int
+	cutAll   []byte // the message set of the response being cut
 }
 
 func e2eH(v int64) string { return kvfmt.I(v) }
@@ -732,6 +733,212 @@ func runE2ESetOffsetFamily() {
 				}
 			}
 		}
+	}
+}
+
+// ---- C17 reader resume: the ONLY fault is "the fetch response is delivered up to byte k, then the connection is lost" ----
+
+type cutChoice struct {
+	region   string
+	declared int // announced message set size
+	pc       int // bytes of the FRAME delivered (4-byte size prefix + body)
+}
+
+// cutChoices lists, per region of the response, the positions at which the connection can be cut.
+func (s *e2e) cutChoices(pf *fetchfake.PendingFetch) map[string][]cutChoice {
+	hdr := s.fake.DataHeaderLen(pf.Version)
+	sub := s.layout.FromOffset(pf.Offset)
+	var all []byte
+	type span struct{ b fetchfake.PBatch; lo, hi int }
+	var spans []span
+	for _, b := range sub {
+		lo := len(all)
+		all = append(all, s.enc.Batch(b)...)
+		spans = append(spans, span{b, lo, len(all)})
+		if len(all) >= s.maxBytes {
+			break
+		}
+	}
+	n := len(all)
+	out := map[string][]cutChoice{}
+	add := func(region string, declared, msgBytes int) {
+		out[region] = append(out[region], cutChoice{region, declared, 4 + hdr + msgBytes})
+	}
+	for c := 1; c < 4; c++ {
+		out["in-size-prefix"] = append(out["in-size-prefix"], cutChoice{"in-size-prefix", n, c})
+	}
+	for c := 0; c < hdr; c++ {
+		reg := "in-partition-header"
+		if c < 8 {
+			reg = "in-response-header"
+		}
+		out[reg] = append(out[reg], cutChoice{reg, n, 4 + c})
+	}
+	var scratch fetchfake.Encoder
+	var bounds []int // record / message boundaries at or after the end of the first batch
+	for i, sp := range spans {
+		b := sp.b
+		if i > 0 {
+			add("between-batches", n, sp.lo)
+		}
+		hl := 61
+		if b.Fmt != 2 {
+			hl = 12
+		}
+		if b.Codec != 0 {
+			for p := sp.lo + 1; p < sp.hi; p++ {
+				if p < sp.lo+hl {
+					add("in-batch-header", n, p)
+				} else {
+					add("in-compressed-batch", n, p)
+				}
+			}
+		} else {
+			isB := map[int]bool{}
+			for j := 1; j < len(b.Recs); j++ {
+				pb := b
+				pb.Recs = b.Recs[:j]
+				p := sp.lo + len(scratch.Batch(pb))
+				isB[p] = true
+				add("between-records", n, p)
+				if i > 0 {
+					bounds = append(bounds, p)
+				}
+			}
+			for p := sp.lo + 1; p < sp.hi; p++ {
+				switch {
+				case isB[p]:
+				case b.Fmt == 2 && p < sp.lo+hl:
+					add("in-batch-header", n, p)
+				default:
+					add("in-record", n, p)
+				}
+			}
+		}
+		if i > 0 || len(spans) == 1 {
+			bounds = append(bounds, sp.hi)
+		} else {
+			bounds = append(bounds, sp.hi)
+		}
+	}
+	// the response ends (Kafka's truncation) inside a record; the connection is lost after the last
+	// complete record but before the end of the frame
+	for _, bd := range bounds {
+		if bd+2 <= n {
+			k1 := bd + 1 + s.r.Intn(min(n-bd-1, 40)+1)
+			if k1 > n {
+				k1 = n
+			}
+			for p := bd; p < k1; p++ {
+				add("after-last-record", k1, p)
+			}
+		}
+	}
+	s.cutAll = all
+	return out
+}
+
+// answerCut answers pf with a response cut in the given region (a random position of it).
+func (s *e2e) answerCut(pf *fetchfake.PendingFetch, region string, choices []cutChoice) {
+	c := choices[s.r.Intn(len(choices))]
+	hdr := s.fake.DataHeaderLen(pf.Version)
+	pre := s.fpre(pf)
+	if !pf.RespondDataFrameCut(s.last, s.cutAll[:c.declared], c.declared, c.pc) {
+		return
+	}
+	s.feats["physcut"] = true
+	s.feats["cut-"+region] = true
+	if c.pc < 4+hdr {
+		s.tok("%s:t", pre)
+	} else {
+		s.tok("%s:d:%s:%s:0:%s", pre, e2eH(s.last), e2eH(int64(c.declared)), kvfmt.Bytes(s.cutAll[:c.pc-4-hdr]))
+	}
+}
+
+var readerCutRegions = []string{"in-size-prefix", "in-response-header", "in-partition-header", "in-batch-header", "between-batches",
+	"between-records", "in-record", "in-compressed-batch", "after-last-record"}
+
+// runE2EReaderCut: a non-group Reader reads a whole log; 1..3 of the fetch responses are cut
+// (region chosen round-robin over the scenarios, position random inside it), everything else is
+// answered in full.  No other fault.
+func runE2EReaderCut(r *rand.Rand, n int) {
+	for it := 0; it < n; it++ {
+		ver := []int{2, 5, 10}[r.Intn(3)]
+		opts := fetchfake.GenOpts{MaxBatch: 1 + r.Intn(4), BigValues: r.Intn(6) == 0}
+		kind := ""
+		switch it % 3 {
+		case 0:
+			opts.Formats, opts.Codecs, kind = []int{2}, []int{0}, "v2-plain"
+		case 1:
+			opts.Formats, opts.Codecs, kind = []int{2}, []int{0, 1, 2, 3, 4}, "v2-compressed"
+		default:
+			opts.Formats, opts.Codecs, kind = []int{1}, []int{0, 0, 1, 2, 3, 4}, "v1"
+		}
+		opts.Holes = r.Intn(4) == 0
+		if r.Intn(2) == 0 {
+			opts.StartOff = int64(r.Intn(500))
+		}
+		layout := fetchfake.GenLayout(r, 10+r.Intn(21), opts)
+		log := layout.Records()
+		first := log[0].Off
+		last := log[len(log)-1].Off + 1
+		if e := layout[len(layout)-1].Last() + 1; e > last {
+			last = e
+		}
+		maxBytes := 150 + r.Intn(500)
+		s := newE2E(r, ver, layout, opts, first, last, maxBytes, 1+r.Intn(8))
+		s.feats["reader-cut"] = true
+		s.feats[kind] = true
+		start := first
+		if r.Intn(3) == 0 {
+			start = log[r.Intn(len(log))].Off
+			s.setOffset(start)
+		}
+		cutsLeft := 1 + r.Intn(3)
+		want := readerCutRegions[(it/3)%len(readerCutRegions)]
+		ncuts := 0
+		for step := 0; step < 80 && !s.hang; step++ {
+			if !s.quiesce() {
+				break
+			}
+			pf := s.fake.PendingGen(s.gen)
+			if pf == nil || len(s.layout.FromOffset(pf.Offset)) == 0 {
+				break
+			}
+			if cutsLeft > 0 && (ncuts == 0 || r.Intn(2) == 0) {
+				ch := s.cutChoices(pf)
+				region := want
+				if len(ch[region]) == 0 || ncuts > 0 {
+					var have []string
+					for _, rg := range readerCutRegions {
+						if len(ch[rg]) > 0 {
+							have = append(have, rg)
+						}
+					}
+					if len(ch[region]) == 0 || r.Intn(2) == 0 {
+						region = have[r.Intn(len(have))]
+					}
+				}
+				s.answerCut(pf, region, ch[region])
+				cutsLeft--
+				ncuts++
+				continue
+			}
+			s.answerData(pf, 2)
+		}
+		if !s.hang {
+			s.quiesce()
+		}
+		expect := 0
+		for _, rec := range log {
+			if rec.Off >= start {
+				expect++
+			}
+		}
+		if len(s.deliv) != expect {
+			s.feats["incomplete"] = true
+		}
+		s.finish("e2e", fmt.Sprintf("cuts=%d", ncuts))
 	}
 }
 
